@@ -228,25 +228,32 @@ class Undefined(Exception):
     """The template itself is not applicable to this record (Python's format() refuses it)."""
 
 
+class _ReferenceFormatter(string.Formatter):
+    """The stdlib's pure-Python format-string engine over a mapping whose missing keys read as '{key}':
+    the first component of a replacement field is looked up in the mapping, then attribute / index access, conversion,
+    (nested) format spec are applied exactly as str.format_map does."""
+
+    def __init__(self, values):
+        self._values = values
+
+    def get_value(self, key, args, kwargs):
+        if isinstance(key, int):
+            raise Undefined("positional replacement field")
+        return self._values[key] if key in self._values else "{" + key + "}"
+
+    def check_unused_args(self, used_args, args, kwargs):
+        pass
+
+
 def apply_template(template, values):
-    """Python format-string semantics for plain {key!conv:spec} fields over `values`; an unknown key stays '{key}'."""
-    out = []
-    for literal, field, spec, conv in string.Formatter().parse(template):
-        out.append(literal)
-        if field is None:
-            continue
-        obj = values[field] if field in values else "{" + field + "}"
-        try:
-            if conv == "r":
-                obj = repr(obj)
-            elif conv == "s":
-                obj = str(obj)
-            elif conv == "a":
-                obj = ascii(obj)
-            out.append(format(obj, spec or ""))
-        except Exception as e:  # noqa: BLE001
-            raise Undefined("%s: %s" % (type(e).__name__, e))
-    return "".join(out)
+    """Python format-string semantics ({key}, {key.attr}, {key[0]}, {key!r}, {key:spec}, {key:>{other}}) over `values`; an unknown
+    key reads as the text '{key}'.  Raises Undefined when Python itself refuses the template for these values."""
+    try:
+        return _ReferenceFormatter(values).vformat(template, (), {})
+    except Undefined:
+        raise
+    except Exception as e:  # noqa: BLE001
+        raise Undefined("%s: %s" % (type(e).__name__, e))
 
 
 def repr_mentions_fields(text, rec):
@@ -307,6 +314,17 @@ def selftest(n=3000, seed=1):
             assert got == exp, (p, got, r)
         assert std_parse(text) == rows, (text, rows)
     assert apply_template("a{{b}}{x}{y!r:>5}{z}", {"x": 1, "y": "q"}) == "a{b}1  'q'{z}"
+    vals = {"p": __import__("pathlib").PurePosixPath("/a/b.txt"), "l": ["x", "y"], "w": 6, "f": "*", "n": 5}
+    tpl = "{p.name}|{p.parent!r}|{l[1]}|{n:{f}>{w}}|{nope[0]}{nope[1]}|{l[0]:>{w}}"
+    assert apply_template(tpl, vals) == tpl.format_map(type("D", (dict,), {"__missing__": lambda s, k: "{" + k + "}"})(vals))
+    assert apply_template(tpl, vals) == "b.txt|PurePosixPath('/a')|y|*****5|{n|     x"
+    for bad in ("{nope.attr}", "{l[7]}", "{n:{nope}}", "{}"):
+        try:
+            apply_template(bad, vals)
+        except Undefined:
+            pass
+        else:
+            raise AssertionError(bad)
     assert translate_escapes("na\u00efve \u2192 {n}\\t{c} \u20ac\\x41\\\\n\\") == "na\u00efve \u2192 {n}\t{c} \u20ac\\x41\\\n\\"
     text = "--[ RECORD 2 ]--\n a = 1\nbc = x\ny\n"
     pos, why = match_line_block(text, 0, 2, [("a", "1"), ("bc", "x\ny")], True)
